@@ -25,6 +25,8 @@ E2_SS = {"test": "TestE2StateSnapCrash", "env": {"quick": {"VERIF_SCRIPTS": 10, 
 
 E3_EL = {"test": "TestE3Election", "env": {"quick": {"VERIF_N": 700}, "thorough": {"VERIF_N": 6000}},
          "shards": {"quick": 1, "thorough": 8}}
+E3_IS = {"test": "TestE3InstallSnapshot", "env": {"quick": {"VERIF_N": 300}, "thorough": {"VERIF_N": 1500}},
+         "shards": {"quick": 2, "thorough": 16}}
 
 
 def E4(profile, qwalks=40, twalks=400, actions=400):
@@ -92,6 +94,37 @@ PROPS = {
         "engines": [E4("churn", 60, 500), E4D("S3-lost-removal,S4-membership-two-apart"), E3_EL],
         "explanation": "Machine-checked for every node state: non-voters never count (hasQuorum = strict majority of voters; the commit rule counts voters only; a non-voter never campaigns; no vote request for or by a non-voter; non-voter replies confirm nothing), quorums of one configuration intersect. The cluster-level statement is FALSE of this code (known findings S3, S4; Lean witness C09_counterexample_removal_not_pending): both are replayed on the real code as directed schedules and reported as KNOWN-FINDING; violations with another signature (e.g. safety broken while all nodes are at most one configuration apart) are reported as violations. Search: " + CLUSTER_NOTE + " with random add-non-voter/promote/remove requests.",
         "assumptions": ["known findings S3, S4 (see known_findings.json)"],
+    },
+    "C10": {
+        "level": "proof",
+        "lean_modules": ["RaftVerif.Properties.C10"],
+        "engines": [E4("snap", 40, 400), E4("crash", 30, 300), E4D("S9-snapshot-overlaps-apply,S20-snapshot-chunk-mixing")],
+        "explanation": "PARTIAL proof. Machine-checked on the model (Model/Snapshot.lean, Properties/C10.lean): the apply step keeps 'state machine = fold of exactly the operation entries of the log up to the applied index' (configuration and no-op entries contribute nothing, every operation entry exactly once, in order); a snapshot whose label and content are read in one step is exact; the label is the applied index and the term of that entry. The real takeSnapshot reads the label and the content in two steps with the apply loop free to run in between: the property is FALSE of the code there (Lean witness C10_counterexample_apply_between_label_and_content; known finding S9, replayed on the real code as a directed schedule) and for snapshots received with mixed chunks (S20). Search and tie: " + CLUSTER_NOTE + "; every snapshot file that ever becomes visible on any node or crash image is parsed (the recording state machine serialises the list of applied indices with a hash chain) and compared with the committed sequence up to its label; violations with another pattern than the two known ones are reported.",
+        "assumptions": ["known findings S9 (content-beyond-label) and S20 (content-behind-label), see known_findings.json",
+                        "the state machine is the harness's recording machine (deterministic, serialises its full history)"],
+    },
+    "C11": {
+        "level": "proof",
+        "lean_modules": ["RaftVerif.Properties.C11"],
+        "engines": [E3_IS, E4("snap", 40, 400), E4D("S20-snapshot-chunk-mixing")],
+        "explanation": "PARTIAL proof. Machine-checked on the three-phase model of InstallSnapshot (enter / wait for the apply loop / restore, exactly the lock structure of the code): a request that is not newer than the node's boundary or applied index changes nothing but term/role/contact; the first phase never touches log, commit or applied index; restore adopts exactly the label (boundary, commit, applied all equal to it, never below the old values) and keeps the log suffix after the label when the log agrees with the label, drops the whole log otherwise; for an honest chunk stream (one snapshot, offsets in order) the received file is exactly the sent bytes (C11_chunks_exact_partial). The unrestricted chunk statement is FALSE of the code (Lean witness C11_counterexample_chunk_mixing, known finding S20: a chunk of another snapshot at the expected offset is accepted). Tie: E3-install (request sequences over the C11 domain vs. the real handler, then AppendEntries/RequestVote probes around the boundary on both), " + CLUSTER_NOTE,
+        "assumptions": ["known finding S20 (see known_findings.json)", "the apply loop is idle while phase C runs (the code waits for it)"],
+    },
+    "C14": {
+        "level": "proof",
+        "lean_modules": ["RaftVerif.Properties.C14", "RaftVerif.Properties.C12", "RaftVerif.Properties.C13"],
+        "engines": [E4("crash", 40, 400), E4("snap", 20, 200), E2_LOG, E2_SS],
+        "explanation": "PARTIAL proof. Machine-checked: what each storage returns after a crash at any point (C12 log: every byte prefix of an in-flight append; C13 term/vote file and snapshot directory: every call boundary and byte); restore() over such an image yields a well-formed node whenever the log base does not exceed the newest visible snapshot label (the code makes a snapshot visible before it trims the log); on well-formed nodes the vote handler (unconditionally), the replication handler, the commit loop and the apply loop never reach a logger.Fatal path; crash steps are part of the models of C02/C08, so one vote per term and election safety hold across restarts. NOT proved: cluster-level safety of applied sequences across restarts (C01). Search and tie: " + CLUSTER_NOTE + "; crash points are armed inside the nodes so that they die between two storage writes of one critical section (before log append / truncate / compact / discard, before SetState, before snapshot create / write / close), the image is restarted with the real constructors and all oracles continue; E2 restarts every byte-level image of every storage.",
+        "assumptions": ["process-crash model (completed syscalls persist; a write may be cut at any byte: E2; between storage operations: E4)",
+                        "a process abort (logger.Fatal = os.Exit) inside a walk is reported as a C14 violation with signature process-abort"],
+    },
+    "C15": {
+        "level": "proof",
+        "lean_modules": ["RaftVerif.Properties.C15"],
+        "engines": [E4("static", 40, 400), E4("crash", 30, 300), E4("snap", 20, 200), E4D("S15-sole-voter-with-nonvoter,S27-added-member-starves-after-leader-change"), E3_AE],
+        "explanation": "PARTIAL (liveness is outside what the model's theorems carry; only the progress-enabling facts are proved). Machine-checked: the conflict hint a follower returns lets the leader's next index move strictly below the rejected previous index and never below 1 (so the back-off terminates); a sole voter wins its election without any reply, also with non-voters present (after fix S15/S25); a member learned from a configuration entry starts with next index 1 (after fix S27), so its first request is well-formed. The convergence statement itself (after faults stop: one leader, new operations commit, every replica reaches the same applied sequence, restarted/added nodes catch up by log or snapshot) is evaluated by " + CLUSTER_NOTE + ": after every walk all partitions heal, all crashed nodes restart, delivery is prompt, and within a bounded virtual time there must be exactly one leader, a fresh write must complete at it, and every running member must reach the same applied index and hash.",
+        "assumptions": ["liveness is checked by bounded-time exploration, not by a theorem: a violation is a concrete non-converging schedule; absence of one is not a proof",
+                        "under membership churn convergence is only demanded when the running nodes agree on the configuration and a majority of its voters is running"],
     },
     "C16": {
         "level": "proof",
